@@ -32,16 +32,20 @@ pub struct Form {
     /// Quote character for attribute values written inside this form (a Markdown title delimited
     /// by `"` cannot hold a `"`).
     pub quote: char,
+    /// Code written right before / right after the comment on its line (the comment sits inside
+    /// other syntax, e.g. the substitution of a template literal); not part of the comment.
+    pub pre: &'static str,
+    pub post: &'static str,
 }
 
 const fn line(open: &'static str) -> Form {
-    Form { kind: FormKind::Line, open, close: "", cont: "", family: 0, quote: '"' }
+    Form { kind: FormKind::Line, open, close: "", cont: "", family: 0, quote: '"', pre: "", post: "" }
 }
 const fn block(open: &'static str, close: &'static str) -> Form {
-    Form { kind: FormKind::Block, open, close, cont: "", family: 0, quote: '"' }
+    Form { kind: FormKind::Block, open, close, cont: "", family: 0, quote: '"', pre: "", post: "" }
 }
 const fn decorated(open: &'static str, cont: &'static str, close: &'static str) -> Form {
-    Form { kind: FormKind::Decorated, open, close, cont, family: 0, quote: '"' }
+    Form { kind: FormKind::Decorated, open, close, cont, family: 0, quote: '"', pre: "", post: "" }
 }
 
 pub struct Kit {
@@ -62,6 +66,9 @@ pub struct Kit {
 }
 
 const SLASH: &[Form] = &[line("//"), block("/*", "*/"), decorated("/**", " * ", " */")];
+/// JavaScript family: a comment inside the substitution of a template literal is a comment
+/// (the tag text in the literal's own text is not).
+const SLASH_TEMPLATE: &[Form] = &[line("//"), block("/*", "*/"), decorated("/**", " * ", " */"), Form { kind: FormKind::Block, open: "/*", close: "*/", cont: "", family: 0, quote: '"', pre: "q = `a ${ ", post: " 1 } b`;" }];
 /// Languages whose block comments nest: the tag sits in the inner comment of `/* o /* … */ o */`.
 const SLASH_NESTING: &[Form] = &[line("//"), block("/*", "*/"), decorated("/**", " * ", " */"), block("/* o /*", "*/ o */")];
 const HASH: &[Form] = &[line("#")];
@@ -89,7 +96,7 @@ pub const KITS: &[Kit] = &[
     Kit { grammar: "java", files: &["x.java"], prologue: "", epilogue: "", code: &["class A { int x = 1; }", "interface I { }"],
           decoys: &["class D { String s = \"<block name=decoy> </block>\"; }", "class E { String t = \"// <block name=decoy> </block>\"; }"], forms: SLASH, blank_between: false, indent_ok: true },
     Kit { grammar: "javascript", files: &["x.js", "x.jsx"], prologue: "", epilogue: "", code: &["let x = 1;", "function f() { }"],
-          decoys: &["let s = \"<block name=decoy> </block>\";", "let t = `/* <block name=decoy> </block> */`;", "let e = <block name=\"decoy\"> </block>;"], forms: SLASH, blank_between: false, indent_ok: true },
+          decoys: &["let s = \"<block name=decoy> </block>\";", "let t = `/* <block name=decoy> </block> */`;", "let e = <block name=\"decoy\"> </block>;"], forms: SLASH_TEMPLATE, blank_between: false, indent_ok: true },
     Kit { grammar: "kotlin", files: &["x.kt", "x.kts"], prologue: "", epilogue: "", code: &["val x = 1", "fun f() { }"],
           decoys: &["val s = \"<block name=decoy> </block>\"", "val t = \"// <block name=decoy> </block>\""], forms: SLASH_NESTING, blank_between: false, indent_ok: true },
     Kit { grammar: "makefile", files: &["Makefile", "makefile", "x.mk"], prologue: "", epilogue: "", code: &["X = 1", "all:\n\t@echo hi"],
@@ -97,10 +104,10 @@ pub const KITS: &[Kit] = &[
     Kit { grammar: "markdown", files: &["x.md", "x.markdown"], prologue: "# Title\n\n", epilogue: "", code: &["Some text here", "*More* text"],
           decoys: &["```\n[//]: # (<block name=decoy>)\n[//]: # (</block>)\n```", "text `<block name=decoy> </block>` text", "    <!-- <block name=decoy> </block> -->"],
           forms: &[
-              Form { kind: FormKind::Md, open: "(", close: ")", cont: "", family: 0, quote: '"' },
-              Form { kind: FormKind::Md, open: "\"", close: "\"", cont: "", family: 0, quote: '\'' },
-              Form { kind: FormKind::Md, open: "'", close: "'", cont: "", family: 0, quote: '"' },
-              Form { kind: FormKind::Block, open: "<!--", close: "-->", cont: "", family: 1, quote: '"' },
+              Form { kind: FormKind::Md, open: "(", close: ")", cont: "", family: 0, quote: '"', pre: "", post: "" },
+              Form { kind: FormKind::Md, open: "\"", close: "\"", cont: "", family: 0, quote: '\'', pre: "", post: "" },
+              Form { kind: FormKind::Md, open: "'", close: "'", cont: "", family: 0, quote: '"', pre: "", post: "" },
+              Form { kind: FormKind::Block, open: "<!--", close: "-->", cont: "", family: 1, quote: '"', pre: "", post: "" },
           ], blank_between: true, indent_ok: false },
     Kit { grammar: "php", files: &["x.php", "x.phtml"], prologue: "<?php\n", epilogue: "", code: &["$x = 1;", "function f() { }"],
           decoys: &["$s = \"<block name=decoy> </block>\";", "$t = '# <block name=decoy> </block>';"],
@@ -109,7 +116,7 @@ pub const KITS: &[Kit] = &[
           decoys: &["s = \"<block name=decoy> </block>\"", "t = \"# <block name=decoy> </block>\"", "\"\"\"\n# <block name=decoy> </block>\n\"\"\""], forms: HASH, blank_between: false, indent_ok: true },
     Kit { grammar: "ruby", files: &["x.rb"], prologue: "", epilogue: "", code: &["x = 1", "def f; end"],
           decoys: &["s = \"<block name=decoy> </block>\"", "t = '# <block name=decoy> </block>'"],
-          forms: &[line("#"), Form { kind: FormKind::Fenced, open: "=begin", close: "=end", cont: "", family: 0, quote: '"' }], blank_between: false, indent_ok: true },
+          forms: &[line("#"), Form { kind: FormKind::Fenced, open: "=begin", close: "=end", cont: "", family: 0, quote: '"', pre: "", post: "" }], blank_between: false, indent_ok: true },
     Kit { grammar: "rust", files: &["x.rs"], prologue: "", epilogue: "", code: &["const X: i32 = 1;", "fn f() { }"],
           decoys: &["const S: &str = \"<block name=decoy> </block>\";", "const T: &str = \"// <block name=decoy> </block>\";"],
           forms: &[line("//"), line("///"), line("//!"), block("/*", "*/"), decorated("/**", " * ", " */"), block("/* o /*", "*/ o */")], blank_between: false, indent_ok: true },
@@ -121,9 +128,9 @@ pub const KITS: &[Kit] = &[
     Kit { grammar: "toml", files: &["x.toml"], prologue: "", epilogue: "", code: &["x = 1", "[owner]"],
           decoys: &["s = \"<block name=decoy> </block>\"", "t = '# <block name=decoy> </block>'"], forms: HASH, blank_between: false, indent_ok: true },
     Kit { grammar: "tsx", files: &["x.tsx"], prologue: "", epilogue: "", code: &["let x: number = 1;", "function f(): void { }"],
-          decoys: &["let s = \"<block name=decoy> </block>\";", "let e = <block name=\"decoy\"> </block>;"], forms: SLASH, blank_between: false, indent_ok: true },
+          decoys: &["let s = \"<block name=decoy> </block>\";", "let e = <block name=\"decoy\"> </block>;"], forms: SLASH_TEMPLATE, blank_between: false, indent_ok: true },
     Kit { grammar: "typescript", files: &["x.ts", "x.d.ts"], prologue: "", epilogue: "", code: &["let x: number = 1;", "interface I { }"],
-          decoys: &["let s = \"<block name=decoy> </block>\";", "let t = `// <block name=decoy> </block>`;"], forms: SLASH, blank_between: false, indent_ok: true },
+          decoys: &["let s = \"<block name=decoy> </block>\";", "let t = `// <block name=decoy> </block>`;"], forms: SLASH_TEMPLATE, blank_between: false, indent_ok: true },
     Kit { grammar: "xml", files: &["x.xml"], prologue: "<root>\n", epilogue: "</root>\n", code: &["<child>Value</child>", "<a b=\"c\"/>"],
           decoys: &["<block name=\"decoy\"> </block>", "<![CDATA[<!-- <block name=decoy> </block> -->]]>"], forms: &[block("<!--", "-->")], blank_between: false, indent_ok: true },
     Kit { grammar: "yaml", files: &["x.yaml", "x.yml"], prologue: "", epilogue: "", code: &["key: value", "list:\n  - item1"],
@@ -452,6 +459,7 @@ impl<'k> Renderer<'k> {
             self.out.text.truncate(len);
             self.out.text.push_str("  ");
         }
+        self.out.text.push_str(form.pre);
         let comment_start = self.out.text.len();
         let mut pending = Vec::new();
         let mut opened = Vec::new();
@@ -521,6 +529,7 @@ impl<'k> Renderer<'k> {
             }
         }
         let comment_end = self.out.text.len();
+        self.out.text.push_str(form.post);
         for (is_start, offset, len) in pending {
             self.out.tag_sites.push(TagSite { is_start, offset, len, comment: (comment_start, comment_end) });
         }
